@@ -90,9 +90,18 @@ func (r *RespValue) Equal(that *RespValue) bool {
 }
 
 func newError(s string) *RespValue {
+	// an error reply is a single line, a CR or LF in the message (e.g. the
+	// echoed name of an unsupported command) would end the reply early and
+	// leave the rest of it in the stream as another reply.
+	b := []byte(s)
+	for i := range b {
+		if b[i] == '\r' || b[i] == '\n' {
+			b[i] = ' '
+		}
+	}
 	return &RespValue{
 		Type: Error,
-		Text: []byte(s),
+		Text: b,
 	}
 }
 
